@@ -33,6 +33,7 @@ type Program struct {
 	classRecv map[string]types.Type
 	Ghosts    map[string]*GhostDecl
 	imports   map[*types.Package]map[string]*types.Package
+	sentTypes map[string]bool
 }
 
 // Load loads the packages matching patterns from module directory dir with the
